@@ -126,6 +126,10 @@ pub use self::types::{
 pub use self::walk::WalkOp;
 pub use self::zone::Zone;
 
+/// Lock scheduling hooks; exist in verification builds only.
+#[cfg(domain_verif)]
+pub use self::in_memory::sync::hooked as verif_hooks;
+
 /// Zone related utilities.
 pub mod util {
     use crate::base::ToName;
